@@ -89,6 +89,125 @@ def judge(res, raw, snap_norm, desc, origin, obj=None):
         res.violation(f"C03:content:{snapshot.field_key(path)}", f"{origin}: {path}: object has {snapshot._short(a)}, file decodes to {snapshot._short(b)}", desc)
 
 
+def os_texts(res):
+    """Text that came from the operating system (undecodable file / device names reach a Python program with lone surrogates
+    in them, os.fsdecode).  The format documents every string as UTF-8: a file either carries valid UTF-8 in every string
+    field, or is not written."""
+    import rv.api as api
+    odd = [os.fsdecode(b"caf\xe9.wav"), "dev\udcff", "\ud800", "ok\udc80\udc81 name", "\udfff" * 3]
+
+    def walk(data):
+        for c in iffparse.parse(data):
+            yield c[0], c[1]
+            if c[1][:4] in (b"SVOX", b"SSYN"):
+                yield from walk(c[1])
+    for k, text in enumerate(odd):
+        for where in ("project-name", "pattern-name", "module-name", "midi-out-name", "label", "embedded-module-name"):
+            p = api.Project()
+            amp = p.new_module(api.m.Amplifier)
+            pat = api.Pattern(tracks=1, lines=1)
+            p.attach_pattern(pat)
+            mm = p.new_module(api.m.MetaModule)
+            inner = mm.project.new_module(api.m.Filter)
+            mm.user_defined_controllers = 1
+            mm.mappings.values[0] = mm.Mapping((inner.index, 0))
+            if where == "project-name":
+                p.name = text
+            elif where == "pattern-name":
+                pat.name = text
+            elif where == "module-name":
+                amp.name = text
+            elif where == "midi-out-name":
+                amp.midi_out_name = text
+            elif where == "label":
+                mm.user_defined[0].label = text
+            else:
+                inner.name = text
+            case = {"family": "os-texts", "where": where, "text": repr(text)}
+            res.case(("os-texts", where, k))
+            res.count("os_text_cases")
+            try:
+                raw = p.read()
+            except Exception:
+                res.count("os_text_saves_refused")
+                continue
+            res.count("os_text_saves_written")
+            cur = None
+            for cid, pl in walk(raw):
+                if cid == b"CHNM" and len(pl) == 4:
+                    cur = int.from_bytes(pl, "little")
+                is_label = cid == b"CHDT" and cur is not None and 8 <= cur < 104 and pl[:4] not in (b"SVOX", b"SSYN")
+                if cid in (b"NAME", b"PNME", b"SNAM", b"SMIN") or is_label:
+                    try:
+                        pl.split(b"\0", 1)[0].decode("utf-8")
+                    except UnicodeDecodeError:
+                        res.violation(f"C03:string-not-utf8:{cid.decode()}", f"a {where} holding {text!r} was written; chunk {cid.decode()} carries {pl[:24]!r}, which is not UTF-8", case)
+                        break
+
+
+def spectravoice_views(res, seed):
+    """SpectraVoice has two public ways of WRITING its sixteen harmonics: the four tables and `harmonics[i]`.  Whatever the
+    history (tables replaced by new objects or by new lists, rows written through either way, before or after a save, on a
+    built or on a loaded module), the file's tables hold what was written last, cell by cell.  (What `harmonics[i]` REPORTS
+    after the tables were written directly is not judged: the row objects keep their own copy of what went through them.)"""
+    import random as _r
+    import rv.api as api
+    rng = _r.Random(seed * 13 + 1)
+    H = api.m.SpectraVoice.HarmonicType
+    TABLES = ["harmonic_freqs", "harmonic_volumes", "harmonic_widths", "harmonic_types"]
+    for k in range(40):
+        sv = api.m.SpectraVoice(name="sv")
+        if k % 4 == 3:
+            sv = sv.clone()
+        model = {t: [x.value if hasattr(x, "value") else x for x in getattr(sv, t).values] for t in TABLES}
+        history = []
+        for step in range(rng.randint(2, 7)):
+            op = rng.choice(("replace-objects", "replace-lists", "row-via-view", "row-via-table", "save", "read-view"))
+            history.append(op)
+            if op == "replace-objects":
+                for attr in rng.sample(TABLES, rng.randint(1, 4)):
+                    setattr(sv, attr, type(getattr(sv, attr))())
+                    model[attr] = [x.value if hasattr(x, "value") else x for x in getattr(sv, attr).values]
+            elif op == "replace-lists":
+                attr = rng.choice(TABLES[:3])
+                vals = [rng.randrange(200) for _ in range(16)]
+                getattr(sv, attr).values = list(vals)
+                model[attr] = vals
+            elif op == "row-via-view":
+                i = rng.randrange(16)
+                h = sv.harmonics[i]
+                vals = (rng.randrange(22050), rng.randrange(256), rng.randrange(256), rng.randrange(len(H)))
+                h.freq_hz, h.volume, h.width, h.type = vals[0], vals[1], vals[2], H(vals[3])
+                for t, v in zip(TABLES, vals):
+                    model[t][i] = v
+            elif op == "row-via-table":
+                i = rng.randrange(16)
+                a_, b_ = rng.randrange(22050), rng.randrange(256)
+                sv.harmonic_freqs.values[i], sv.harmonic_volumes.values[i] = a_, b_
+                model["harmonic_freqs"][i], model["harmonic_volumes"][i] = a_, b_
+            elif op == "save":
+                api.Synth(sv).read()
+            else:
+                [(h.freq_hz, h.volume) for h in sv.harmonics]
+        case = {"family": "spectravoice-writes", "history": history, "loaded": k % 4 == 3}
+        res.case(("spectravoice-writes", k, tuple(history)))
+        res.count("spectravoice_view_cases")
+        try:
+            raw = api.Synth(sv).read()
+            dec, problems = refcodec.decode(raw)
+            pl = dec["module"]["payload"]
+        except Exception as e:
+            res.violation(f"C03:spectravoice-raises:{workload.exc_key(e)}", f"SpectraVoice after {history}: {e!r}", case)
+            continue
+        for t in TABLES:
+            filed = [int(x) for x in pl[t]]
+            if filed != [int(x) for x in model[t]]:
+                rows = [i for i in range(16) if filed[i] != int(model[t][i])]
+                res.violation(f"C03:content:/module/payload/{t}:writes", f"SpectraVoice after {history}: rows {rows[:5]} of {t} in the file hold {[filed[i] for i in rows[:5]]}, "
+                                                                       f"last written were {[int(model[t][i]) for i in rows[:5]]}", case)
+                break
+
+
 def calibrate(res):
     """The oracle must agree with rv's reader on SunVox-written files before it judges anything."""
     ok = 0
@@ -373,7 +492,10 @@ def run_shard(spec_, res):
             S = snapshot.snap_project(o) if hasattr(o, "modules") else snapshot.snap_synth(o)
             judge(res, raw, build.norm(S, "before"), {"fixture": name, "edits": applied}, f"loaded+edited:{name}", obj=o if hasattr(o, "modules") else None)
             res.count("loaded_edited_files")
+    if spec_["shard"] == 1:
+        spectravoice_views(res, seed)
     if spec_["shard"] == 0:
+        os_texts(res)
         res.sample({"origin": "synth:Sampler", "checked": ["chunk stream tiles the file", "400-byte instrument record at documented offsets",
                                                            "44-byte sample headers", "envelope chunks 0x14+4n", "CVAL/CMID counts", "decoded == public state"]})
     else:
